@@ -1,0 +1,26 @@
+//go:build verif
+
+package NoKV
+
+import "sync/atomic"
+
+// Verification-only yield point of the value-log GC (build tag `verif`): lets the
+// correspondence harness run client calls between rewrite's liveness tests and its
+// re-inserts.  Without the tag verifVlogYield is an empty inlinable function.
+
+var verifVlogYieldFn atomic.Pointer[func(point string, n int)]
+
+// VerifSetVlogYield installs (or, with nil, removes) the callback invoked at the yield points.
+func VerifSetVlogYield(fn func(point string, n int)) {
+	if fn == nil {
+		verifVlogYieldFn.Store(nil)
+		return
+	}
+	verifVlogYieldFn.Store(&fn)
+}
+
+func verifVlogYield(point string, n int) {
+	if fn := verifVlogYieldFn.Load(); fn != nil {
+		(*fn)(point, n)
+	}
+}
